@@ -145,7 +145,7 @@ func init() {
 		},
 		NotDecided: []string{
 			"the io.Reader / io.ReadSeeker / io.ReaderAt back ends against the behavioural contract of IBinaryReader.Bytes (their memory safety is proved; their functional clauses are assumed relative to io contracts)",
-			"WriteUint16/32/64 byte layout (delegated to encoding/binary's AppendByteOrder, an external interface); the 8/24-bit writers and all readers are proved",
+			"WriteUint16/32/64 and WriteInt16/32/64 byte layout (delegated to encoding/binary's AppendByteOrder, an external interface); the 8- and 24-bit writers (signed and unsigned) and all readers, including two's-complement sign extension of ReadInt8/16/24/32, are proved; ReadInt64/ReadUint64 values are not specified",
 			"the operating system (os.File, syscall.Mmap) and the file/mmap constructors",
 		},
 		Technique: "deductive verification: behavioural interface contract for IBinaryReader.Bytes over a ghost content view (proved for the memory and mmap back ends), io.Seeker semantics of Seek, position bookkeeping and sticky first error, fixed-width decoding == sum of content bytes, bit-exact BitmapReader/BitmapWriter contracts; VCs discharged by z3/cvc5",
